@@ -3,7 +3,7 @@ inside structs / arrays / typed maps, as strings holding paths, through
 sub-pipeline boundaries, to several consumers, across mapped calls, with
 volatile / strict / retain annotations."""
 from mro import (arrx, call, collect, const, echo, length, lit, objx, pipeline, program, ref, self_, split,
-                 stage, struct, INST, CI, FILE, FILES, FMAP, FSTR, FSTRUCT, FDIR, FMSTRUCT, FASTRUCT, FILEODD)
+                 stage, struct, INST, CI, FILE, FILES, FMAP, FSTR, FSTRUCT, FDIR, FMSTRUCT, FASTRUCT, FILEODD, FSTRS)
 
 
 def P_files(name, vol=None, retain=None, outs="file f, txt g, int n", rules=None):
@@ -89,6 +89,17 @@ def catalogue():
                                [call("S", binds={"xs": self_("xs")}),
                                 call("C1", binds={"f": ref("S", "f")})],
                                {"a": ref("C1", "r"), "cs": ref("S", "cs")})], "TOP", {"xs": [5, 6]}))
+    # 7b. the same with exactly ten chunks (two-digit chunk directories) and a second consumer
+    P.append(program("vf_split10", [],
+                     [stage("S", "int[] xs", "file f, int[] cs", {"f": FILE, "cs": collect("ci2")},
+                            split=True, chunks={"k": "len", "src": "xs"},
+                            couts="file part, int ci2", crules={"part": FILE, "ci2": CI}),
+                      C_file("C1"), C_file("C2")],
+                     [pipeline("TOP", "int[] xs", "string a, string b, int[] cs",
+                               [call("S", binds={"xs": self_("xs")}),
+                                call("C1", binds={"f": ref("S", "f")}),
+                                call("C2", binds={"f": ref("S", "f")})],
+                               {"a": ref("C1", "r"), "b": ref("C2", "r"), "cs": ref("S", "cs")})], "TOP", {"xs": list(range(10))}))
     # 8. the same, the splitting producer volatile and its file a top-level output
     P.append(program("vf_split_vol", [],
                      [stage("S", "int[] xs", "file f, int[] cs", {"f": FILE, "cs": collect("ci2")},
@@ -170,6 +181,15 @@ def catalogue():
                                [call("P", binds={"x": split(self_("xs"))}, mode="array", vol=True),
                                 call("CA", binds={"f": ref("P", "f")})],
                                {"a": ref("CA", "r")})], "TOP", {"xs": [2, 1, 3]}, filetypes=ft))
+    # 14c. paths handed on inside an array of strings whose first elements are not paths
+    P.append(program("vf_strarr", [],
+                     [stage("P", "int x", "string[] names, int n", {"names": FSTRS, "n": const(1)}),
+                      stage("CS", "string[] names", "string r", {"r": INST}), SLOW("S1")],
+                     [pipeline("TOP", "int x", "string a, string[] kept",
+                               [call("P", binds={"x": self_("x")}, vol=True),
+                                call("S1", binds={"x": self_("x")}),
+                                call("CS", binds={"names": ref("P", "names")})],
+                               {"a": ref("CS", "r"), "kept": ref("P", "names")})], "TOP", {"x": 1}, filetypes=ft))
     # 15. a directory output and a file output released at different times (strict-volatile producer)
     P.append(program("vf_dir", [],
                      [stage("P", "int x", "path d, file f", {"d": FDIR, "f": FILE}, volatile="strict"),
